@@ -64,6 +64,74 @@ Example C15_coordinates_ring_nonvacuous :
   orf_location (-1) (-3) 9 (Some 9) (0, 8) = [mkPart 0 6 (-1); mkPart 6 9 (-1)].
 Proof. vm_compute. reflexivity. Qed.
 
+(* C15_coordinates in its extraction form, on a circular record.  [extract] is location.extract: the
+   parts in the order given, each reverse-complemented on its own on strand -1.  For EVERY genome,
+   every window of it - also one starting before the origin (off < 0: genome[N+off:] ++ genome[:end]) -
+   both strands and every stretch [s, e] of the scanned text not longer than the record, the location
+   that scan_orfs computes for (s, e) extracts from the genome to exactly text[s .. e]. *)
+Theorem C15_coordinates_extract_ring : forall g off end_ direction s e,
+  window_ok (zlen g) off end_ -> (direction = 1 \/ direction = -1) ->
+  0 <= s -> s <= e -> e < end_ - off -> e - s + 1 <= zlen g ->
+  extract g (orf_location direction off (zlen (window g off end_ direction)) (Some (zlen g)) (s, e)) =
+  slice (window g off end_ direction) s (e + 1).
+Proof. exact extract_orf_ring. Qed.
+Print Assumptions C15_coordinates_extract_ring.
+
+(* the same without a record length (linear record): window = genome[off:end] *)
+Theorem C15_coordinates_extract_line : forall g off end_ direction s e,
+  0 <= off -> off <= end_ -> end_ <= zlen g -> (direction = 1 \/ direction = -1) ->
+  0 <= s -> s <= e -> e < end_ - off ->
+  extract g (orf_location direction off (zlen (window g off end_ direction)) None (s, e)) =
+  slice (window g off end_ direction) s (e + 1).
+Proof. exact extract_orf_line. Qed.
+Print Assumptions C15_coordinates_extract_line.
+
+(* tied to scan_orfs itself: every location RETURNED by scan_orfs for a window (not longer than the
+   record) of a circular genome comes from an ORF [a, b] of one of the three frames of the
+   upper-cased text, and extracts from the genome to the text from a to b: "the reported coordinates
+   extract from the record, on the reported strand, to precisely that ORF" *)
+Theorem C15_coordinates : forall g off end_ direction minimum l,
+  window_ok (zlen g) off end_ -> end_ - off <= zlen g -> (direction = 1 \/ direction = -1) ->
+  In l (scan_orfs (window g off end_ direction) direction off minimum (Some (zlen g))) ->
+  exists frame a b, (frame <= 2)%nat /\
+    In (a, b) (frame_orfs (map upper (window g off end_ direction)) frame minimum) /\
+    0 <= a /\ a <= b /\ b < end_ - off /\
+    l = orf_location direction off (end_ - off) (Some (zlen g)) (a, b) /\
+    extract g l = slice (window g off end_ direction) a (b + 1).
+Proof. exact scan_orfs_extract_ring. Qed.
+Print Assumptions C15_coordinates.
+
+Theorem C15_coordinates_line : forall g off end_ direction minimum l,
+  0 <= off -> off <= end_ -> end_ <= zlen g -> (direction = 1 \/ direction = -1) ->
+  In l (scan_orfs (window g off end_ direction) direction off minimum None) ->
+  exists frame a b, (frame <= 2)%nat /\
+    In (a, b) (frame_orfs (map upper (window g off end_ direction)) frame minimum) /\
+    0 <= a /\ a <= b /\ b < end_ - off /\
+    extract g l = slice (window g off end_ direction) a (b + 1).
+Proof. exact scan_orfs_extract_line. Qed.
+Print Assumptions C15_coordinates_line.
+
+(* non-vacuity: genome AGATAAGTG (9 nt), window starting 3 before the origin, reverse strand: the
+   window text is the reverse complement of GTG AGA TAA, ... ; forward strand: GTGAGATAA is an ORF as long
+   as the record, reported in two parts and extracted back to itself *)
+Example C15_coordinates_nonvacuous :
+  let g := [65; 71; 65; 84; 65; 65; 71; 84; 71] in
+  window_ok (zlen g) (-3) 6 /\
+  scan_orfs (window g (-3) 6 1) 1 (-3) 3 (Some (zlen g)) = [[mkPart 6 9 1; mkPart 0 6 1]] /\
+  extract g [mkPart 6 9 1; mkPart 0 6 1] = [71; 84; 71; 65; 71; 65; 84; 65; 65].
+Proof. cbn zeta. split; [right; cbn; lia|]. split; vm_compute; reflexivity. Qed.
+
+(* the decidable specification that the check evaluates on EVERY implementation output
+   (Model.is_orf_b / orfs_spec, bounded quantifiers, no reference to the scanning loop) is the
+   position-only statement is_orf, and enumerates the same ORFs as the model's loop *)
+Theorem C15_spec_decides_is_orf : forall ks s e, is_orf_b ks s e = true <-> is_orf ks s e.
+Proof. exact is_orf_b_spec. Qed.
+Print Assumptions C15_spec_decides_is_orf.
+
+Theorem C15_spec_enumerates_orfs : forall ks s e, In (s, e) (orfs_spec ks) <-> In (s, e) (scan_kinds ks 0 None).
+Proof. intros. symmetry. apply scan_kinds_orfs_spec. Qed.
+Print Assumptions C15_spec_enumerates_orfs.
+
 (* the result of scan_orfs is ordered by position *)
 Theorem C15_sorted : forall sequ direction offset minimum rl,
   sorted_key loc_key (scan_orfs sequ direction offset minimum rl).
@@ -87,4 +155,37 @@ Example C15_intergenic_nonvacuous :
 Proof.
   split; [|vm_compute; reflexivity].
   cbn [starts_sorted]. repeat split; repeat (constructor; [cbn [fst]; lia|]); constructor.
+Qed.
+
+(* completeness of the gap search.  A position is FREE when it is outside every gene shrunk by the
+   padding on both sides.  For EVERY gene list (no order needed): every free position of [start, end)
+   lies in one of the areas computed before the length filter, and that area is reported whenever it has
+   the minimum length. *)
+Theorem C15_intergenic_complete : forall start end_ genes min_length padding x,
+  start <= x < end_ -> free padding genes x ->
+  exists a, In a (raw_areas start end_ genes padding) /\ fst a <= x < snd a /\
+            (min_length <= snd a - fst a -> In a (find_intergenic_areas start end_ genes min_length padding)).
+Proof. exact find_intergenic_complete. Qed.
+Print Assumptions C15_intergenic_complete.
+
+(* conversely, for genes ordered by start every area consists of free positions of [start, end) only, so
+   the areas together are exactly the free positions: the gaps between the (padded) genes *)
+Theorem C15_intergenic_areas_are_gaps : forall start end_ genes padding a x,
+  0 <= padding -> starts_sorted genes -> In a (raw_areas start end_ genes padding) -> fst a <= x < snd a ->
+  start <= x < end_ /\ free padding genes x.
+Proof. exact raw_areas_free. Qed.
+Print Assumptions C15_intergenic_areas_are_gaps.
+
+Theorem C15_intergenic_filter : forall start end_ genes min_length padding a,
+  In a (find_intergenic_areas start end_ genes min_length padding) <->
+  In a (raw_areas start end_ genes padding) /\ min_length <= snd a - fst a.
+Proof. exact find_intergenic_raw. Qed.
+Print Assumptions C15_intergenic_filter.
+
+Example C15_intergenic_complete_nonvacuous :
+  free 10 [(0, 110); (50, 105); (200, 300)] 150 /\
+  raw_areas 0 400 [(0, 110); (50, 105); (200, 300)] 10 = [(0, 10); (100, 210); (290, 400)].
+Proof.
+  split; [|vm_compute; reflexivity].
+  unfold free. constructor; [cbn; lia|]. constructor; [cbn; lia|]. constructor; [cbn; lia|]. constructor.
 Qed.
